@@ -21,6 +21,11 @@ def check_links(roots, reg: Registry | None = None) -> list[tuple[str, str]]:
     values = [o for o in objs if isinstance(o, _core.Value)]
     nodes = [o for o in objs if isinstance(o, _core.Node)]
     graphs = _graphs_of(objs)
+    zombies = getattr(reg, "zombies", {})
+    if zombies:
+        for z in zombies.values():
+            out.append(("object_refers_to_half_constructed_graph", f"{tok(z)} (its constructor raised) is still referenced"))
+        graphs = [g for g in graphs if id(g) not in zombies]
 
     # 1. uses <=> inputs
     for n in nodes:
@@ -80,7 +85,7 @@ def check_links(roots, reg: Registry | None = None) -> list[tuple[str, str]]:
                 out.append(("member_wrong_graph", f"{tok(x)} is in {tok(g)} but names graph {tok(x.graph)}"))
     for n in nodes:
         g = n.graph
-        if g is not None:
+        if g is not None and id(g) not in zombies:
             c = sum(1 for x in g if x is n)
             if c != 1:
                 out.append(("graph_without_membership", f"{tok(n)} names {tok(g)} which lists it {c} times"))
@@ -104,6 +109,8 @@ def check_links(roots, reg: Registry | None = None) -> list[tuple[str, str]]:
                 out.append(("initializer_has_producer", f"{tok(v)} in {tok(g)}.initializers has producer {tok(v.producer())}"))
     for v in values:
         g = v.graph
+        if id(g) in zombies:
+            continue
         if v.is_graph_input():
             if g is None or not isinstance(g, _core.Graph) or not any(x is v for x in g.inputs):
                 out.append(("input_flag_without_membership", f"{tok(v)}.is_graph_input() but not in {tok(g)}.inputs"))
